@@ -24,7 +24,10 @@ Record crypto := mkCrypto {
   gen : N -> N -> hash;             (* bcrypt.GenerateFromPassword: salt, password *)
   verify : hash -> N -> bool;       (* bcrypt.CompareHashAndPassword = nil *)
   digest : N -> N;                  (* sha1 of the password *)
-  too_long : N -> bool              (* len(password) > 72: GenerateFromPassword refuses *)
+  too_long : N -> bool;             (* len(password) > 72: GenerateFromPassword refuses *)
+  plain : N -> bool                 (* at most 72 bytes and no NUL byte: the passwords on which bcrypt is
+                                       injective (it reads the 72-byte cyclic expansion of password ++ NUL);
+                                       used by the theorems only, never by the model *)
 }.
 
 (* ---- association lists keyed by N (first match wins; [aset] keeps keys unique) ---- *)
